@@ -18,6 +18,18 @@ QS = frozenset([ord('"'), ord("/"), ord("'")])
 INFO = (("log", "info"),)
 
 
+_SHARD = (0, 1)
+
+
+def set_shard(shard, nshards):
+    global _SHARD
+    _SHARD = (shard, nshards)
+
+
+def mine(idx):
+    return idx % _SHARD[1] == _SHARD[0]
+
+
 def no_directive(t):
     """no `g:` / `G:` anywhere: the directive texts cannot occur, so directives are out of the picture"""
     return [Not(And(Or(t.is_code(i, ord("g")), t.is_code(i, ord("G"))), t.is_code(i + 1, ord(":")), Or(*[t.is_code(i + 2, ord(x)) for x in "iInN"])))
@@ -69,8 +81,9 @@ def c11_freeform(src, n, timeout=300):
         nonl = And(*[Not(t.is_code(i, 10)) for i in range(k + 2, N)])
         inside = Or(*[c for p, c in fm.found.items() if p >= k])
         viol.append(And(pre, open_, nonl, inside))
+    exp = {"kind": "none_in_comment", "structured": False, "macros": "any-name"}
     out.append(run_query("c11-line-comment-at-eof", t, base, Or(*viol),
-                         "every text of <= %d characters over the alphabet" % n, timeout, twin_goal=anyfound))
+                         "every text of <= %d characters over the alphabet" % n, timeout, twin_goal=anyfound, extra={"expect": exp}))
     # (b) line comment terminated by a newline, anything after it
     viol = []
     for k in range(N - 1):
@@ -81,7 +94,7 @@ def c11_freeform(src, n, timeout=300):
             inside = Or(*[c for p, c in fm.found.items() if k <= p < e])
             viol.append(And(pre, open_, nonl, t.is_code(e, 10), inside))
     out.append(run_query("c11-line-comment", t, base, Or(*viol),
-                         "every text of <= %d characters" % n, timeout, twin_goal=anyfound))
+                         "every text of <= %d characters" % n, timeout, twin_goal=anyfound, extra={"expect": exp}))
     # (c) block comment with Rust's nesting rule (a comment that is closed before the text ends)
     D = 2
     viol = []
@@ -121,7 +134,7 @@ def c11_freeform(src, n, timeout=300):
         viol.append(And(pre, open_, closed_eventually, hit))
     out.append(run_query("c11-block-comment-nested", t, base, Or(*viol),
                          "every text of <= %d characters; comment nesting depth <= %d" % (n, D), timeout,
-                         twin_goal=anyfound))
+                         twin_goal=anyfound, extra={"expect": exp}))
     return out
 
 
@@ -197,6 +210,8 @@ def c10_templates(src, structured, quick=True, timeout=300):
     msg_len = 4 if quick else 6
     pre_len = 3 if quick else 5
     for idx, (name, gaps, target, kvs) in enumerate(shapes):
+        if not mine(idx):
+            continue
         tag = "c10s%d" % idx if structured else "c10u%d" % idx
         T = canonical_template(name, pre_len, gaps, target, kvs, msg_len, 2, tag)
         t, cons = T.build()
@@ -214,8 +229,9 @@ def c10_templates(src, structured, quick=True, timeout=300):
                                                                 "; ".join(kvs) + "; " if kvs else "", msg_len))
         if p0 not in fm.found:
             out.append({"name": "c10-%s-%d" % ("structured" if structured else "plain", idx), "verdict": "violated",
-                        "seconds": 0.0, "bound": bound, "witness": {"text": None, "shape": desc,
-                        "why": "no instance of the template is recognised at the macro name"}, "twin": None, "note": ""})
+                        "seconds": 0.0, "bound": bound, "witness": {"text": solve.any_instance(t, cons), "shape": desc,
+                        "why": "no instance of the template is recognised at the macro name"}, "twin": None, "note": "",
+                        "expect": {"kind": "entry_at", "pos": T.marks["msg"], "structured": structured, "macros": INFO}})
             continue
         e = model.SymEntry(fm, p0, INFO, structured, dirs)
         # expected placement, phrased from the property
@@ -233,5 +249,534 @@ def c10_templates(src, structured, quick=True, timeout=300):
             good = And(e.considered, e.is_new, placed, e.others if kvs else Not(e.others))
         goal = Not(good)
         out.append(run_query("c10-%s-%d" % ("structured" if structured else "plain", idx), t, cons, goal, bound, timeout,
-                             extra={"shape": desc, "structured": structured}))
+                             extra={"shape": desc, "structured": structured,
+                                    "expect": {"kind": "entry_at", "pos": expect_pos, "structured": structured, "macros": INFO,
+                                               "entry_kind": "StructuredNew" if structured else "String",
+                                               "token7": (src.kv_prefix_format.replace("{}", src.ref_key) + "7" +
+                                                          (src.kv_suffix_others if kvs else src.kv_suffix_alone)) if structured else None}}))
+    return out
+
+
+# ================================================================================================
+# helpers for numbers and tokens
+# ================================================================================================
+DOCUMENTED_REGEX = r"\[ref: ([0-9]{1,10})\]"
+DOCUMENTED_TOKEN = "[ref: {}] "
+DOCUMENTED_KV = ("ref = {}", "; ", ", ")
+
+
+def digit_hole(T, name, k, mark=None):
+    T.hole(name, k, A.ASCII_DIGIT, mark=mark)
+
+
+def digits_value(t, start, k):
+    return z3.Sum([(z3.BV2Int(t.c[start + i]) - 48) * (10 ** (k - 1 - i)) for i in range(k)])
+
+
+def canonical_number(t, start, k):
+    """the k digits at `start` are the decimal form of some id in 1..=u32::MAX (no leading zero)"""
+    v = digits_value(t, start, k)
+    return [Not(t.is_code(start, ord("0"))), v >= 1, v <= model.U32_MAX], v
+
+
+# ================================================================================================
+# C12: the reference-present rule, on message texts
+# ================================================================================================
+def c12_rule(src, m=14, timeout=300):
+    out = []
+    t = peg.Text.symbolic(m, "m")
+    base = list(t.well_formed())
+    fm = model.FileModel.__new__(model.FileModel)  # string-level only: no grammar involved
+    fm.src, fm.t, fm.n = src, t, m
+    import rx
+    fm.refsearch = rx.Search(src.ref_regex, t)
+    # whole text = the message literal's content: enumerate its length
+    spec_all = False
+    got_all = False
+    lens = []
+    for L in range(0, m + 1):
+        is_len = t.length_is(L)
+        sp = model.Span({(0, L): True})
+        res, some = fm.extract_reference(sp)
+        # specification, written from the property text
+        spec = False
+        pre = A.encode("[ref: ")
+        for k in range(1, 11):
+            if len(pre) + k + 1 > L:
+                break
+            head = And(*[t.is_code(i, c) for i, c in enumerate(pre)])
+            digs = And(*[t.in_set(len(pre) + i, A.ASCII_DIGIT) for i in range(k)])
+            close = t.is_code(len(pre) + k, ord("]"))
+            val = digits_value(t, len(pre), k)
+            spec = Or(spec, And(head, digs, close, val <= model.U32_MAX))
+        lens.append(And(is_len, z3.Xor(some if some is not False else z3.BoolVal(False),
+                                       spec if spec is not False else z3.BoolVal(False))))
+        got_all = Or(got_all, And(is_len, some))
+    out.append(run_query("c12-rule-equals-spec", t, base, Or(*lens),
+                         "every message text of <= %d characters over the alphabet (incl. non-ASCII digit U+0660)" % m,
+                         timeout, twin_goal=got_all, extra={"regex": src.ref_regex, "expect": {"kind": "rule"}}))
+    return out
+
+
+def c12_token(src, tail=3, timeout=300, ks=(1, 2, 9, 10)):
+    """the token breadlog inserts satisfies the rule and both regexes read the assigned number back"""
+    import rx
+    out = []
+    pre, post = src.token(None, False, False)
+    for k in ks:
+        T = tmpl.Template("tok%d" % k)
+        T.chars.extend(pre)
+        T.marks["d"] = len(T.chars)
+        digit_hole(T, "d", k)
+        T.chars.extend(post)
+        T.tail("rest", tail)
+        t, cons = T.build()
+        ncons, n = canonical_number(t, T.marks["d"], k)
+        cons += ncons
+        fm = model.FileModel.__new__(model.FileModel)
+        fm.src, fm.t, fm.n = src, t, t.n
+        fm.refsearch = rx.Search(src.ref_regex, t)
+        good = False
+        for L in range(len(pre) + k + len(post), t.n):
+            res, some = fm.extract_reference(model.Span({(0, L): t.length_is(L)}))
+            for cond, val, dspan in res:
+                good = Or(good, And(cond, val == n, dspan == (T.marks["d"], T.marks["d"] + k)))
+        # the documented (unanchored) extraction regex
+        doc = rx.Search(DOCUMENTED_REGEX, t)
+        docgood = False
+        for L in range(len(pre) + k + len(post), t.n):
+            chosen, matched = doc.first_match(0, L)
+            for (s, e, cc, caps) in chosen:
+                if caps.get(1) == (T.marks["d"], T.marks["d"] + k):
+                    docgood = Or(docgood, And(t.length_is(L), cc))
+        out.append(run_query("c12-token-roundtrip-%d-digits" % k, t, cons, Not(And(good, docgood)),
+                             "every id with %d decimal digits in 1..=4294967295, token followed by <= %d arbitrary characters" % (k, tail),
+                             timeout, extra={"token_format": src.token_format,
+                                             "expect": {"kind": "token", "digits_at": T.marks["d"], "ndigits": k}}))
+    return out
+
+
+# ================================================================================================
+# C13: structured mode, existing / unusable `ref` key-values
+# ================================================================================================
+def c13_existing(src, quick=True, timeout=300):
+    out = []
+    others_sets = [([], []), (["k = 1"], []), ([], ["k = 1"]), (["a", "b:? = c"], ["d = \"x;y\""])]
+    if not quick:
+        others_sets += [(["a = 1", "b", "c:% = d"], []), ([], ["a", "b", "c"]), (["a = \"p,q\""], ["z:debug = w"])]
+    ks = (1, 10) if quick else (1, 2, 5, 10)
+    gapvariants = [0, 1] if quick else [0, 1, 2]
+    idx = 0
+    for before, after in others_sets:
+        for target in (None, 2):
+            for k in ks:
+                for gap in gapvariants:
+                    idx += 1
+                    if not mine(idx):
+                        continue
+                    T = tmpl.Template("c13e%d" % idx)
+                    T.hole("pre", 2, tmpl.NO_QUOTE_SLASH)
+                    T.lit("info", mark="name").lit("!(")
+                    if target is not None:
+                        T.lit('target: "').hole("tgt", target, MSG_CHARS, mark="tgt").lit('", ')
+                    for kv in before:
+                        T.lit(kv + ", ")
+                    T.lit("ref").hole("ge", gap, tmpl.WS_PLAIN).lit("=").hole("gv", gap, tmpl.WS_PLAIN)
+                    T.mark("val")
+                    digit_hole(T, "d", k)
+                    T.hole("gs", gap, tmpl.WS_PLAIN)
+                    for kv in after:
+                        T.lit(", " + kv)
+                    T.lit('; "').hole("msg", 3, MSG_CHARS, mark="msg").lit('"').tail("rest", 2)
+                    t, cons = T.build()
+                    cons += tmpl.string_body_ok(t, T.marks["msg"], 3) + prefix_is_code(t, T) + no_directive(t)
+                    if target:
+                        cons += tmpl.string_body_ok(t, T.marks["tgt"], target)
+                    v = digits_value(t, T.marks["val"], k)
+                    cons.append(v <= model.U32_MAX)
+                    fm = model.FileModel(src, t, max_kvps=len(before) + len(after) + 2)
+                    p0 = T.marks["name"]
+                    desc = "before=%s after=%s target=%s digits=%d gap=%d" % (before, after, target is not None, k, gap)
+                    name = "c13-existing-%d" % idx
+                    bound = "template info!([target,] %s ref<gap>=<gap><%d digits><gap> %s; \"msg\") value <= u32::MAX" % (
+                        ", ".join(before), k, ", ".join(after))
+                    if p0 not in fm.found:
+                        out.append({"name": name, "verdict": "violated", "seconds": 0.0, "bound": bound, "twin": None, "note": "",
+                                    "witness": {"text": None, "why": "statement not recognised", "shape": desc}})
+                        continue
+                    e = model.SymEntry(fm, p0, INFO, True, None)
+                    good = False
+                    for cond, dspan, val in e.ref_spans:
+                        good = Or(good, And(cond, val == v))
+                    good = And(e.considered, e.is_pre, good, Not(e.needs_id), e.pos.get(T.marks["val"], False))
+                    out.append(run_query(name, t, cons, Not(good), bound, timeout,
+                                         extra={"shape": desc, "expect": {"kind": "existing_ref", "pos": T.marks["val"], "digits": k,
+                                                                          "structured": True, "macros": INFO}}))
+    return out
+
+
+def c13_unusable(src, quick=True, timeout=300):
+    """`ref` whose value is not an unsigned integer literal: untouched, unusable, never a second ref"""
+    out = []
+    idx = 0
+    VAL_START = frozenset(c for c in A.ALL_CODES if A.is_xid_start(A.char_of(c)) or c == ord("_"))
+    VAL_REST = frozenset(c for c in A.ALL_CODES if A.is_xid_continue(A.char_of(c)) or c in (ord("."), ord("(")) or c == ord(")"))
+    for before in ([], ["k = 1"]):
+        for after in ([], ["z"]):
+            for vlen in ((1, 3) if quick else (1, 2, 4)):
+                idx += 1
+                if not mine(idx):
+                    continue
+                T = tmpl.Template("c13u%d" % idx)
+                T.hole("pre", 2, tmpl.NO_QUOTE_SLASH)
+                T.lit("info", mark="name").lit("!(")
+                for kv in before:
+                    T.lit(kv + ", ")
+                T.lit("ref = ").hole("v0", 1, VAL_START, mark="val")
+                T.hole("v1", vlen - 1, VAL_REST)
+                for kv in after:
+                    T.lit(", " + kv)
+                T.lit('; "').hole("msg", 3, MSG_CHARS, mark="msg").lit('"').tail("rest", 2)
+                t, cons = T.build()
+                cons += tmpl.string_body_ok(t, T.marks["msg"], 3) + prefix_is_code(t, T) + no_directive(t)
+                fm = model.FileModel(src, t, max_kvps=4)
+                p0 = T.marks["name"]
+                name = "c13-unusable-%d" % idx
+                bound = "template info!(%s ref = <identifier-like value of %d chars> %s; \"msg\")" % (", ".join(before), vlen, ", ".join(after))
+                if p0 not in fm.found:
+                    out.append({"name": name, "verdict": "violated", "seconds": 0.0, "bound": bound, "twin": None, "note": "",
+                                "witness": {"text": None, "why": "statement not recognised"}})
+                    continue
+                e = model.SymEntry(fm, p0, INFO, True, None)
+                good = And(e.considered, e.unusable, Not(e.needs_id), Not(e.is_new))
+                out.append(run_query(name, t, cons, Not(good), bound, timeout,
+                                     extra={"expect": {"kind": "unusable_ref", "pos": T.marks["val"], "structured": True, "macros": INFO}}))
+    # digits that overflow u32: also unusable
+    for k, lead in ((10, "5"), (11, "1")):
+        idx += 1
+        T = tmpl.Template("c13o%d" % idx)
+        T.lit("info", mark="name").lit("!(ref = ").lit(lead, mark="val")
+        digit_hole(T, "d", k - 1)
+        T.lit('; "m")')
+        t, cons = T.build()
+        fm = model.FileModel(src, t, max_kvps=3)
+        e = model.SymEntry(fm, 0, INFO, True, None)
+        good = And(e.considered, e.unusable, Not(e.needs_id), Not(e.is_new))
+        out.append(run_query("c13-overflow-%d" % k, t, cons, Not(good),
+                             "ref = %s followed by %d arbitrary digits (> u32::MAX)" % (lead, k - 1), timeout,
+                             extra={"expect": {"kind": "unusable_ref", "pos": T.marks["val"], "structured": True, "macros": INFO}}))
+    return out
+
+
+# ================================================================================================
+# C06: every insertion round-trips (templated): rewrite the statement with the token breadlog
+# inserts and parse the result again
+# ================================================================================================
+def c06_roundtrip(src, structured, quick=True, timeout=300):
+    out = []
+    shapes = []
+    kvsets = [[], ["k = 1"]] if quick else [[], ["k = 1"], ["k", "l:? = x"], ["a = \"x;y\"", "b"]]
+    for name in (["info"] if quick else ["info", "log::info"]):
+        for target in (None, 2):
+            for kvs in kvsets:
+                for k in ((1, 10) if quick else (1, 3, 10)):
+                    shapes.append((name, target, kvs, k))
+    msg_len = 3 if quick else 5
+    for idx, (name, target, kvs, k) in enumerate(shapes):
+        if not mine(idx):
+            continue
+        tag = "c06%s%d" % ("s" if structured else "u", idx)
+        T = canonical_template(name, 2, {}, target, kvs, msg_len, 2, tag)
+        t, cons = T.build()
+        cons += tmpl.string_body_ok(t, T.marks["msg"], msg_len)
+        if target:
+            cons += tmpl.string_body_ok(t, T.marks["tgt"], target)
+        cons += prefix_is_code(t, T) + no_directive(t)
+        fm = model.FileModel(src, t, max_kvps=4)
+        p0 = T.marks["name"]
+        qname = "c06-roundtrip-%s-%d" % ("structured" if structured else "plain", idx)
+        bound = "template %s!(%s%s\"<%d chars>\") rewritten with an id of %d digits" % (
+            name, "target, " if target is not None else "", "; ".join(kvs) + "; " if kvs else "", msg_len, k)
+        if p0 not in fm.found:
+            out.append({"name": qname, "verdict": "violated", "seconds": 0.0, "bound": bound, "twin": None, "note": "",
+                        "witness": {"text": None, "why": "statement not recognised"}})
+            continue
+        e = model.SymEntry(fm, p0, INFO, structured, None)
+        # where C10 says the token goes (and c10-* proves it does)
+        if not structured:
+            pos = T.marks["msg"]
+        elif target is not None:
+            pos = T.marks["after_target"]
+        else:
+            pos = T.marks["paren"] + 1
+        pre, post = src.token(None, structured, bool(kvs))
+        digits = [z3.BitVec("%s_id_%d" % (tag, i), 8) for i in range(k)]
+        out_chars = list(t.c[:pos]) + list(pre) + digits + list(post) + list(t.c[pos:])
+        t2 = peg.Text(out_chars)
+        dcons = [t2.in_set(pos + len(pre) + i, A.ASCII_DIGIT) for i in range(k)]
+        ncons, n = canonical_number(t2, pos + len(pre), k)
+        fm2 = model.FileModel(src, t2, max_kvps=5)
+        if p0 not in fm2.found:
+            out.append({"name": qname, "verdict": "violated", "seconds": 0.0, "bound": bound, "twin": None, "note": "",
+                        "witness": {"text": None, "why": "rewritten statement is never recognised"}})
+            continue
+        e2 = model.SymEntry(fm2, p0, INFO, structured, None)
+        back = False
+        for cond, dspan, val in e2.ref_spans:
+            back = Or(back, And(cond, val == n))
+        good = And(e2.considered, back, Not(e2.needs_id))
+        pre_cond = And(e.needs_id, e.pos.get(pos, False))
+        res = run_query(qname, t2, cons + dcons + ncons + [pre_cond], Not(good), bound, timeout,
+                        extra={"expect": {"kind": "reads_back", "digits_at": pos + len(pre), "ndigits": k, "structured": structured,
+                                          "macros": INFO}})
+        out.append(res)
+    return out
+
+
+# ================================================================================================
+# C03: insertion points are ordered and inside the file (free-form)
+# ================================================================================================
+def c03_positions(src, n, structured, timeout=300):
+    t = peg.Text.symbolic(n, "p")
+    fm = model.FileModel(src, t)
+    base = list(t.well_formed()) + no_directive(t)
+    names = (("m", "a"),)  # one-letter configured macro so that two statements fit into the bound
+    ents = {p: model.SymEntry(fm, p, names, structured, None) for p in sorted(fm.found)}
+    viol = []
+    some = False
+    for p, e in ents.items():
+        some = Or(some, e.needs_id)
+        for pos, c in e.pos.items():
+            # inside the text, after the macro name
+            viol.append(And(e.needs_id, c, Or(t.at_end(pos - 1) if pos > 0 else False, pos <= p)))
+        for q, f in ents.items():
+            if q <= p:
+                continue
+            for pos1, c1 in e.pos.items():
+                for pos2, c2 in f.pos.items():
+                    if pos2 <= pos1:
+                        viol.append(And(e.needs_id, f.needs_id, c1, c2))
+    return [run_query("c03-insert-positions-%s" % ("structured" if structured else "plain"), t, base, Or(*viol),
+                      "every text of <= %d characters, configured macro `a` / `m::a`" % n, timeout, twin_goal=some,
+                      extra={"expect": {"kind": "ordered", "structured": structured, "macros": names}})]
+
+
+def c03_literals(src):
+    """the token shapes are the three documented ones"""
+    ok = (src.token_format == DOCUMENTED_TOKEN and src.kv_prefix_format.replace("{}", src.ref_key) + "{}" == DOCUMENTED_KV[0]
+          and src.kv_suffix_alone == DOCUMENTED_KV[1] and src.kv_suffix_others == DOCUMENTED_KV[2])
+    return [{"name": "c03-token-literals", "verdict": "holds" if ok else "violated", "seconds": 0.0, "twin": "n/a", "note": "",
+             "bound": "format literals read from insertable_reference_string() and find()",
+             "witness": None if ok else {"text": None, "why": "token literals are %r %r %r %r" % (
+                 src.token_format, src.kv_prefix_format, src.kv_suffix_alone, src.kv_suffix_others)}}]
+
+
+# ================================================================================================
+# C11 (templated): unconfigured names, non-literal invocations, macro text inside string literals
+# ================================================================================================
+def c11_names(src, structured=False, timeout=300):
+    out = []
+    XC = A.XID_CONTINUE
+    variants = [
+        ("suffix", lambda T: T.lit("info", mark="name").hole("x", 1, XC)),
+        ("prefix", lambda T: T.hole("x", 1, A.XID_START | {ord("_")}, mark="name").lit("info")),
+        ("other-module", lambda T: T.hole("x", 1, A.XID_START | {ord("_")}, mark="name").lit("::info")),
+        ("module-prefix", lambda T: T.hole("x", 1, A.XID_START | {ord("_")}, mark="name").lit("log::info")),
+        ("module-suffix", lambda T: T.lit("log::info", mark="name").hole("x", 1, XC)),
+        ("module-only", lambda T: T.lit("log", mark="name")),
+        ("nested-module", lambda T: T.lit("log::", mark="name").hole("x", 1, A.XID_START).lit("::info")),
+    ]
+    for vi, (vname, build) in enumerate(variants):
+        if not mine(vi):
+            continue
+        T = tmpl.Template("c11n_" + vname.replace("-", "_"))
+        T.hole("pre", 2, tmpl.NO_QUOTE_SLASH)
+        build(T)
+        T.lit('!("').hole("msg", 3, MSG_CHARS, mark="msg").lit('")').tail("rest", 2)
+        t, cons = T.build()
+        cons += tmpl.string_body_ok(t, T.marks["msg"], 3) + prefix_is_code(t, T) + no_directive(t)
+        fm = model.FileModel(src, t)
+        # no entry may be produced anywhere inside the statement
+        hit = False
+        for p in fm.found:
+            if p >= T.marks["name"] - 0 and p < T.marks["msg"]:
+                e = model.SymEntry(fm, p, INFO, structured, None)
+                hit = Or(hit, e.considered)
+        out.append(run_query("c11-unconfigured-%s" % vname, t, cons, hit,
+                             "template <prefix><name variant %s>!(\"<3 chars>\")" % vname, timeout,
+                             extra={"expect": {"kind": "no_entries", "structured": structured, "macros": INFO}}))
+    # configured name without a literal message
+    ARG = frozenset(c for c in A.ALL_CODES if c not in (ord('"'), ord(";"), 10))
+    for alen in (1, 4):
+        T = tmpl.Template("c11a%d" % alen)
+        T.hole("pre", 2, tmpl.NO_QUOTE_SLASH).lit("info", mark="name").lit("!(").hole("arg", alen, ARG, mark="arg").lit(")")
+        T.tail("rest", 3, frozenset(c for c in A.ALL_CODES if c != ord('"')))
+        t, cons = T.build()
+        cons += prefix_is_code(t, T) + no_directive(t)
+        fm = model.FileModel(src, t)
+        hit = False
+        if T.marks["name"] in fm.found:
+            hit = model.SymEntry(fm, T.marks["name"], INFO, structured, None).considered
+        out.append(run_query("c11-nonliteral-%d" % alen, t, cons, hit if hit is not False else z3.BoolVal(False),
+                             "template info!(<%d chars without quote or ;>) <no quote in the rest>" % alen, timeout,
+                             extra={"expect": {"kind": "no_entries", "structured": structured, "macros": INFO}}))
+    return out
+
+
+def c11_strings(src, n_body=10, timeout=300):
+    """macro-like text inside an ordinary string literal (quotes escaped)"""
+    T = tmpl.Template("c11s")
+    T.hole("pre", 2, tmpl.NO_QUOTE_SLASH).lit('"', mark="open").hole("body", n_body, MSG_CHARS, mark="body").lit('"', mark="close")
+    T.tail("rest", 5)
+    t, cons = T.build()
+    cons += tmpl.string_body_ok(t, T.marks["body"], n_body) + no_directive(t)
+    fm = model.FileModel(src, t)
+    names = (("m", "a"),)
+    inside = False
+    straddle = False
+    close = T.marks["close"]
+    for p in fm.found:
+        if T.marks["open"] < p < close:
+            e = model.SymEntry(fm, p, names, False, None)
+            v = fm.view(p)
+            # does the statement's own message literal start at the closing quote of the enclosing literal?
+            beyond = Or(*[c for (ls, le), c in v.message_lit.d.items() if ls >= close])
+            inside = Or(inside, And(e.considered, Not(beyond)))
+            straddle = Or(straddle, And(e.considered, beyond))
+    anyf = Or(*fm.found.values())
+    bound = "<2 chars>\"<%d-char string body, quotes escaped>\"<5 arbitrary chars>, macro `a`" % n_body
+    exp = {"kind": "no_entries", "structured": False, "macros": names}
+    return [run_query("c11-inside-string-literal", t, cons, inside, bound, timeout, twin_goal=anyf, extra={"expect": exp}),
+            run_query("c11-string-literal-straddle", t, cons, straddle, bound, timeout, twin_goal=anyf,
+                      extra={"class": "[statement-starts-inside-string-literal]", "expect": exp})]
+
+
+# ================================================================================================
+# C14: directives (templated: concrete line structure, symbolic comment text / case / gaps)
+# ================================================================================================
+def cased(T, text, name):
+    """the directive text with every letter in either case"""
+    for i, ch in enumerate(text):
+        if ch.isalpha():
+            T.hole("%s%d" % (name, i), 1, frozenset([ord(ch.lower()), ord(ch.upper())]))
+        else:
+            T.lit(ch)
+
+
+def c14_directives(src, quick=True, timeout=300):
+    out = []
+    WSNN = frozenset([ord(" "), 9])  # blanks that do not break the line
+    ign, nok = src.ignore_text, src.nokvp_text
+    dirs = directive.Directives()
+    counter = [0]
+
+    def statement(T, mark, kv=False):
+        T.lit("info", mark=mark).lit("!(")
+        if kv:
+            T.lit("k = 1; ")
+        T.lit('"').hole(mark + "m", 2, MSG_CHARS, mark=mark + "msg").lit('")')
+
+    def finish(T, marks_msg):
+        t, cons = T.build()
+        for m in marks_msg:
+            cons += tmpl.string_body_ok(t, T.marks[m], 2)
+        return t, cons
+
+    def case(name, build):
+        idx = counter[0]
+        counter[0] += 1
+        if not mine(idx):
+            return
+        t, cons, goal, bound, expect = build()
+        out.append(run_query(name, t, cons, goal, bound, timeout, extra={"expect": expect}))
+
+    styles = [("line", "//", ""), ("block", "/*", "*/")]
+    for sname, op, cl in styles:
+        for blank in ((0, 1) if quick else (0, 1, 2)):
+            for indent in ((0,) if quick else (0, 2)):
+                for structured in (False, True):
+                    def build(sname=sname, op=op, cl=cl, blank=blank, indent=indent, structured=structured):
+                        T = tmpl.Template("c14a_%s_%d_%d_%d" % (sname, blank, indent, structured))
+                        T.hole("i0", indent, WSNN).lit(op).hole("g1", 1, WSNN)
+                        cased(T, ign, "d")
+                        T.hole("g2", 1, WSNN).lit(cl).lit("\n")
+                        for b in range(blank):
+                            T.hole("b%d" % b, 1, WSNN).lit("\n")
+                        T.hole("i1", indent, WSNN)
+                        statement(T, "s1")
+                        T.lit(" ")
+                        statement(T, "s2")   # second statement on the same line: also skipped
+                        T.lit("\n")
+                        statement(T, "s3")   # next line: not affected
+                        t, cons = finish(T, ["s1msg", "s2msg", "s3msg"])
+                        fm = model.FileModel(src, t)
+                        e1 = model.SymEntry(fm, T.marks["s1"], INFO, structured, dirs)
+                        e2 = model.SymEntry(fm, T.marks["s2"], INFO, structured, dirs)
+                        e3 = model.SymEntry(fm, T.marks["s3"], INFO, structured, dirs)
+                        good = And(Not(e1.considered), Not(e2.considered), e3.considered, e1.ignored, e2.ignored)
+                        return t, cons, Not(good), ("`%s <breadlog:ignore in any letter case> %s`, %d blank line(s), indent %d, "
+                                                    "two statements on the next line, one after" % (op, cl, blank, indent)), {
+                            "kind": "entries_exact", "structured": structured, "macros": INFO,
+                            "positions": [T.marks["s3msg"] if not structured else T.marks["s3"] + 6]}
+                    case("c14-ignore-applies-%s-b%d-i%d-%s" % (sname, blank, indent, "s" if structured else "p"), build)
+
+        def build_nokvp(sname=sname, op=op, cl=cl):
+            T = tmpl.Template("c14b_%s" % sname)
+            T.lit(op).hole("g1", 1, WSNN)
+            cased(T, nok, "d")
+            T.hole("g2", 1, WSNN).lit(cl).lit("\n")
+            statement(T, "s1", kv=True)
+            T.lit("\n")
+            statement(T, "s2", kv=True)
+            t, cons = finish(T, ["s1msg", "s2msg"])
+            fm = model.FileModel(src, t)
+            e1 = model.SymEntry(fm, T.marks["s1"], INFO, True, dirs)
+            e2 = model.SymEntry(fm, T.marks["s2"], INFO, True, dirs)
+            good = And(e1.considered, e1.is_string, e1.pos.get(T.marks["s1msg"], False), e2.considered, Not(e2.is_string))
+            return t, cons, Not(good), "`%s <breadlog:no-kvp> %s` before a key-value statement, structured mode" % (op, cl), {
+                "kind": "entries_exact", "structured": True, "macros": INFO, "positions": [T.marks["s1msg"], T.marks["s2"] + 6]}
+        case("c14-nokvp-applies-%s" % sname, build_nokvp)
+
+        for sep in ("foo();", "// x"):
+            def build_sep(sname=sname, op=op, cl=cl, sep=sep):
+                T = tmpl.Template("c14c_%s_%d" % (sname, len(sep)))
+                T.lit(op + " " + ign + " " + cl + "\n").lit(sep + "\n")
+                statement(T, "s1")
+                t, cons = finish(T, ["s1msg"])
+                fm = model.FileModel(src, t)
+                e1 = model.SymEntry(fm, T.marks["s1"], INFO, False, dirs)
+                return t, cons, Not(e1.considered), "directive, then the line `%s`, then the statement" % sep, {
+                    "kind": "entries_exact", "structured": False, "macros": INFO, "positions": [T.marks["s1msg"]]}
+            case("c14-separated-%s-%s" % (sname, "code" if sep[0] == "f" else "comment"), build_sep)
+
+        OTHER = frozenset(c for c in A.ALL_CODES if c not in (10, 13, ord("*"), ord("/")) and not A.char_of(c).isspace() and c != 128)
+        for where in ("before", "after"):
+            def build_other(sname=sname, op=op, cl=cl, where=where):
+                T = tmpl.Template("c14d_%s_%s" % (sname, where))
+                T.lit(op + " ")
+                if where == "before":
+                    T.hole("x", 1, OTHER).lit(" ")
+                T.lit(ign)
+                if where == "after":
+                    T.lit(" ").hole("x", 1, OTHER)
+                T.lit(" " + cl + "\n")
+                statement(T, "s1")
+                t, cons = finish(T, ["s1msg"])
+                fm = model.FileModel(src, t)
+                e1 = model.SymEntry(fm, T.marks["s1"], INFO, False, dirs)
+                return t, cons, Not(e1.considered), "comment with one more word %s the directive" % where, {
+                    "kind": "entries_exact", "structured": False, "macros": INFO, "positions": [T.marks["s1msg"]]}
+            case("c14-other-text-%s-%s" % (sname, where), build_other)
+
+        def build_after(sname=sname, op=op, cl=cl):
+            T = tmpl.Template("c14e_%s" % sname)
+            statement(T, "s1")
+            T.lit(" " + op + " " + ign + " " + cl + "\n")
+            T.lit(op + " " + ign + " " + cl)
+            t, cons = finish(T, ["s1msg"])
+            fm = model.FileModel(src, t)
+            e1 = model.SymEntry(fm, T.marks["s1"], INFO, False, dirs)
+            return t, cons, Not(e1.considered), "directive after the statement", {
+                "kind": "entries_exact", "structured": False, "macros": INFO, "positions": [T.marks["s1msg"]]}
+        case("c14-after-statement-%s" % sname, build_after)
     return out
